@@ -43,14 +43,14 @@ func requireEffects(c *core.Ctx, R string, u *core.Unit, table []effect) map[str
 	for _, e := range table {
 		var hit *core.Call
 		why := "no such call"
-		for _, cl := range u.Calls() {
+		for _, cl := range u.CallsX() { // the unit's own calls, then those of novel private helpers it calls (judged at the helper call)
 			if !e.match(u, cl) {
 				continue
 			}
 			ok := true
 			why = "call present but not on the required edge"
 			for _, gd := range e.on {
-				if !g.GuardedBy(cl.Loc, gd) {
+				if !g.GuardedBy(cl.Loc, gd) && !mergedRefusal(u, cl, gd, e, table) {
 					ok = false
 				}
 			}
@@ -79,6 +79,44 @@ func requireEffects(c *core.Ctx, R string, u *core.Unit, table []effect) map[str
 		c.Check(R, u.Key+"/"+e.name, pos, hit != nil, why)
 	}
 	return found
+}
+
+// mergedRefusal: the call is not dominated by the guard's own edge but by an
+// edge that establishes "guard ∨ other conditions", and each of the other
+// conditions is itself a licence for the same call — an error test (`err !=
+// nil`) or the `on` guard of another entry of the table that matches this call.
+// That is the shape of two adjacent tests with identical bodies merged into one
+// `if a || b { … }`: the call still runs whenever the guard's fact holds, and
+// runs in no case in which it did not run before.
+func mergedRefusal(u *core.Unit, cl *core.Call, gd core.Guard, self effect, table []effect) bool {
+	g := u.Graph()
+	ok, others := g.DisjunctGuard(cl.Loc, gd)
+	if !ok {
+		return false
+	}
+	return othersAreLicences(u, cl, others, self.name, table)
+}
+
+func othersAreLicences(u *core.Unit, cl *core.Call, others []core.CondAtom, selfName string, table []effect) bool {
+	g := u.Graph()
+	errG := gErrNonNil()
+	for _, o := range others {
+		lic := g.Establishes(errG, o, cl.Loc.B)
+		for _, e2 := range table {
+			if lic || e2.name == selfName || (cl != nil && !e2.match(u, cl)) {
+				continue
+			}
+			for _, g2 := range e2.on {
+				if g.Establishes(g2, o, cl.Loc.B) {
+					lic = true
+				}
+			}
+		}
+		if !lic {
+			return false
+		}
+	}
+	return true
 }
 
 // ---- matchers ----
@@ -509,6 +547,11 @@ func valueAfterErrCheck(c *core.Ctx, R string, pkgs ...string) {
 func evalIntCond(u *core.Unit, e ast.Expr, name string, val int64) (res bool, ok bool) {
 	info := u.Info()
 	switch x := ast.Unparen(e).(type) {
+	case *ast.CallExpr:
+		// a boolean pure helper of the same package (isData(frameType)) stands for the expression it returns
+		if y := u.ExpandPredicate(x); y != nil {
+			return evalIntCond(u, y, name, val)
+		}
 	case *ast.UnaryExpr:
 		if x.Op == token.NOT {
 			r, k := evalIntCond(u, x.X, name, val)
